@@ -1,16 +1,23 @@
 -------------------------- MODULE FramingCatalogue --------------------------
-(* Byte and rune lengths of the JSON bodies of the harness's message catalogue (harness/c18:
+(* Byte and rune lengths and typed ids of the JSON bodies of the harness's message catalogue (harness/c18:
    catalogue()).  This file holds the values measured at the pinned commit; the check regenerates it
    in its scratch directory from `c18 catalogue` on every run, so that wire position i of the model is
-   byte i of the real frame.                                                                       *)
+   byte i of the real frame.  Id texts are in the harness's tlaSafe spelling (%XX for other bytes).   *)
+LOCAL INSTANCE Integers
+LOCAL NoNum == 0 - 1000
 CatalogueMsgs == <<
-  [kind |-> "call", idk |-> "num", blen |-> 50, rlen |-> 50],
-  [kind |-> "notify", idk |-> "none", blen |-> 44, rlen |-> 43],
-  [kind |-> "call", idk |-> "str", blen |-> 74, rlen |-> 68],
-  [kind |-> "response", idk |-> "num", blen |-> 40, rlen |-> 37],
-  [kind |-> "response", idk |-> "str", blen |-> 52, rlen |-> 49],
-  [kind |-> "response", idk |-> "num", blen |-> 76, rlen |-> 75],
-  [kind |-> "notify", idk |-> "none", blen |-> 178, rlen |-> 178],
-  [kind |-> "call", idk |-> "num", blen |-> 58, rlen |-> 58]
+  [kind |-> "call", idk |-> "num", id |-> [t |-> "num", v |-> "1", n |-> 1], blen |-> 50, rlen |-> 50],
+  [kind |-> "notify", idk |-> "none", id |-> [t |-> "none", v |-> "", n |-> NoNum], blen |-> 44, rlen |-> 43],
+  [kind |-> "call", idk |-> "str", id |-> [t |-> "str", v |-> "x%E2%82%ACy", n |-> NoNum], blen |-> 74, rlen |-> 68],
+  [kind |-> "response", idk |-> "num", id |-> [t |-> "num", v |-> "7", n |-> 7], blen |-> 40, rlen |-> 37],
+  [kind |-> "response", idk |-> "str", id |-> [t |-> "str", v |-> "id-%C3%BC", n |-> NoNum], blen |-> 52, rlen |-> 49],
+  [kind |-> "response", idk |-> "num", id |-> [t |-> "num", v |-> "2147483647", n |-> 2147483647], blen |-> 76, rlen |-> 75],
+  [kind |-> "notify", idk |-> "none", id |-> [t |-> "none", v |-> "", n |-> NoNum], blen |-> 178, rlen |-> 178],
+  [kind |-> "call", idk |-> "num", id |-> [t |-> "num", v |-> "0", n |-> 0], blen |-> 58, rlen |-> 58],
+  [kind |-> "call", idk |-> "str", id |-> [t |-> "str", v |-> "7", n |-> 7], blen |-> 53, rlen |-> 52],
+  [kind |-> "response", idk |-> "str", id |-> [t |-> "str", v |-> "42", n |-> 42], blen |-> 41, rlen |-> 41],
+  [kind |-> "response", idk |-> "str", id |-> [t |-> "str", v |-> "007", n |-> 7], blen |-> 69, rlen |-> 69],
+  [kind |-> "call", idk |-> "str", id |-> [t |-> "str", v |-> "-1", n |-> 0 - 1], blen |-> 54, rlen |-> 54],
+  [kind |-> "response", idk |-> "num", id |-> [t |-> "num", v |-> "-12", n |-> 0 - 12], blen |-> 41, rlen |-> 41]
 >>
 =============================================================================
